@@ -207,17 +207,124 @@ Proof.
 Qed.
 
 (* ------------------------------------------------------------------ *)
-(* the loops without a poll *)
+(* the repaired loops: polled, gap bounded *)
 
-Lemma gap_date_days_lemma : forall n, gap (date_days_trace n) = n.
+Lemma repeat_shape : forall bound body,
+  (forall cur, cur <= bound -> mid_ok bound body cur /\ endcur body cur <= bound) ->
+  forall m cur, cur <= bound ->
+  mid_ok bound (repeat_trace m body) cur /\ endcur (repeat_trace m body) cur <= bound.
 Proof.
-  intros. unfold date_days_trace. rewrite gap_pollfree by (apply pollfree_repeat; cbn; auto).
+  intros bound body H. induction m as [|m IH]; intros cur Hc; cbn [repeat_trace].
+  - cbn. auto.
+  - destruct (H cur Hc) as [M E]. destruct (IH _ E) as [M2 E2].
+    split; [apply mid_ok_app; assumption | rewrite endcur_app; exact E2].
+Qed.
+
+Lemma gap_bound_date_steps_lemma : forall n step, gap (date_steps_trace n step) <= step.
+Proof. intros. unfold date_steps_trace. apply gap_polled_loop; cbn; auto. lia. Qed.
+
+Lemma gap_bound_date_days_lemma : forall n, gap (date_days_trace n) <= 1.
+Proof. intro. apply gap_bound_date_steps_lemma. Qed.
+
+Lemma gap_bound_date_months_lemma : forall n, gap (date_months_trace n) <= 1.
+Proof.
+  intro n. unfold date_months_trace, gap.
+  destruct (polled_loop 1 1 (N.to_nat (n / 12)) [Work 1] 0) as [M1 E1]; cbn; auto; try lia.
+  destruct (polled_loop 1 1 (N.to_nat (n mod 12)) [Work 1]
+              (endcur (repeat_trace (N.to_nat (n / 12)) [Poll; Work 1]) 0)) as [M2 E2]; cbn; auto; try lia.
+  apply gap_aux_le; [apply mid_ok_app; assumption | rewrite endcur_app; lia | lia].
+Qed.
+
+Lemma inserts_shape : forall k l bound cur,
+  cur <= bound -> l + N.of_nat k <= bound + 1 ->
+  mid_ok bound (inserts_trace k l) cur /\ endcur (inserts_trace k l) cur <= bound.
+Proof.
+  induction k as [|k IH]; intros l bound cur Hc Hl; cbn [inserts_trace].
+  - cbn. auto.
+  - rewrite Nat2N.inj_succ in Hl. cbn [mid_ok endcur].
+    destruct (IH (l + 1) bound (0 + l)) as [M E]; try lia. auto.
+Qed.
+
+Lemma lshift_inserts_le : forall n, lshift_inserts n <= n / 64 /\ 64 * lshift_inserts n <= n.
+Proof.
+  intro n. unfold lshift_inserts. destruct (64 <? n); [|split; [apply N.le_0_l | lia]].
+  split; [apply N.le_refl|]. apply N.mul_div_le. lia.
+Qed.
+
+Lemma lshift1_shape : forall bound L cur, 1 <= bound -> cur <= bound ->
+  mid_ok bound (lshift1_trace L) cur /\ endcur (lshift1_trace L) cur <= bound.
+Proof.
+  intros bound L cur H1 Hc. unfold lshift1_trace.
+  destruct (polled_loop bound 1 (N.to_nat L) [Work 1] cur) as [A E]; cbn; auto; try lia.
+  split; [exact A | lia].
+Qed.
+
+(* lshift_n: never more work between two polls than the result has limbs *)
+Lemma gap_bound_lshift_n_lemma : forall l0 n, 1 <= l0 -> gap (lshift_n_trace l0 n) <= l0 + n / 64.
+Proof.
+  intros l0 n H. unfold lshift_n_trace, gap.
+  destruct (lshift_inserts_le n) as [K1 _].
+  generalize dependent (lshift_inserts n). intros k K1.
+  generalize dependent (n / 64). intros q K1.
+  set (bound := l0 + q).
+  assert (1 <= bound) as B1 by (unfold bound; lia).
+  destruct (inserts_shape (N.to_nat k) l0 bound 0) as [M1 E1].
+  { lia. } { rewrite N2Nat.id. unfold bound. lia. }
+  destruct (repeat_shape bound (lshift1_trace (l0 + k)) (fun cur Hc => lshift1_shape bound (l0 + k) cur B1 Hc)
+              (N.to_nat (n - 64 * k)) _ E1) as [M2 E2].
+  apply gap_aux_le; [apply mid_ok_app; assumption | rewrite endcur_app; exact E2 | lia].
+Qed.
+
+Lemma gap_bound_dist_bop_lemma : forall la lb, gap (dist_bop_trace la lb) <= la * lb + 1.
+Proof.
+  intros. unfold dist_bop_trace. apply gap_polled_loop; cbn [mid_ok endcur]; [exact I|].
+  generalize (la * lb). intro m. lia.
+Qed.
+
+Lemma polls_app : forall a b, polls (a ++ b) = polls a + polls b.
+Proof. induction a as [|[|k] a IH]; intros; cbn [polls app]; [lia | rewrite IH; lia | apply IH]. Qed.
+
+Lemma polls_repeat : forall n body, polls (repeat_trace n body) = N.of_nat n * polls body.
+Proof.
+  induction n as [|n IH]; intros; cbn [repeat_trace]; [reflexivity|].
+  rewrite polls_app, IH, Nat2N.inj_succ. lia.
+Qed.
+
+Lemma polls_date_steps_lemma : forall n step, polls (date_steps_trace n step) = n.
+Proof. intros. unfold date_steps_trace. rewrite polls_repeat. cbn [polls]. rewrite N2Nat.id. lia. Qed.
+
+Lemma polls_date_months_lemma : forall n, polls (date_months_trace n) = date_months_polls_of n.
+Proof.
+  intros. unfold date_months_trace, date_months_polls_of. rewrite polls_app, !polls_repeat.
+  cbn [polls]. rewrite !N2Nat.id. lia.
+Qed.
+
+Lemma polls_dist_bop_lemma : forall la lb, polls (dist_bop_trace la lb) = dist_bop_polls la lb.
+Proof. intros. unfold dist_bop_trace, dist_bop_polls. rewrite polls_repeat. cbn [polls]. rewrite N2Nat.id. lia. Qed.
+
+Lemma polls_inserts : forall k l, polls (inserts_trace k l) = N.of_nat k.
+Proof.
+  induction k as [|k IH]; intros; cbn [inserts_trace polls]; [reflexivity|].
+  rewrite IH, Nat2N.inj_succ. lia.
+Qed.
+
+Lemma polls_lshift_n_lemma : forall l0 n, lshift_n_insert_polls_of n <= polls (lshift_n_trace l0 n).
+Proof.
+  intros. unfold lshift_n_trace, lshift_n_insert_polls_of. rewrite polls_app, polls_inserts, N2Nat.id. lia.
+Qed.
+
+(* ------------------------------------------------------------------ *)
+(* the loops as they were before the repairs, and the parser: no poll *)
+
+Lemma gap_date_days_old_lemma : forall n, gap (date_days_trace_old n) = n.
+Proof.
+  intros. unfold date_days_trace_old. rewrite gap_pollfree by (apply pollfree_repeat; cbn; auto).
   rewrite work_repeat. cbn [work]. lia.
 Qed.
 
-Lemma gap_dist_bop_lemma : forall la lb, gap (dist_bop_trace la lb) = 2 * (la * lb).
+Lemma gap_dist_bop_old_lemma : forall la lb, gap (dist_bop_trace_old la lb) = 2 * (la * lb).
 Proof.
-  intros. unfold dist_bop_trace. rewrite gap_pollfree by (apply pollfree_repeat; cbn; auto).
+  intros. unfold dist_bop_trace_old. rewrite gap_pollfree by (apply pollfree_repeat; cbn; auto).
   rewrite work_repeat. cbn [work]. lia.
 Qed.
 
@@ -233,13 +340,13 @@ Proof.
   pose proof (parse_juxt_cost_ge d). lia.
 Qed.
 
-Lemma inserts_pollfree : forall k l, pollfree (inserts_trace k l).
+Lemma inserts_old_pollfree : forall k l, pollfree (inserts_trace_old k l).
 Proof. induction k; intros; cbn; auto. Qed.
 
-Lemma inserts_work_ge : forall k l, 1 <= l -> N.of_nat k <= work (inserts_trace k l).
+Lemma inserts_old_work_ge : forall k l, 1 <= l -> N.of_nat k <= work (inserts_trace_old k l).
 Proof.
   induction k as [|k IH]; intros l H; [cbn; lia|].
-  rewrite Nat2N.inj_succ. cbn [inserts_trace work]. specialize (IH (l + 1)). lia.
+  rewrite Nat2N.inj_succ. cbn [inserts_trace_old work]. specialize (IH (l + 1)). lia.
 Qed.
 
 Lemma gap_prefix_pollfree : forall p r, pollfree p -> work p <= gap (p ++ r).
@@ -282,11 +389,11 @@ Proof.
   specialize (G p 0 0 H). lia.
 Qed.
 
-Lemma gap_lshift_n_lemma : forall l0 n, 1 <= l0 -> n / 64 <= gap (lshift_n_trace l0 n).
+Lemma gap_lshift_n_old_lemma : forall l0 n, 1 <= l0 -> lshift_inserts n <= gap (lshift_n_trace_old l0 n).
 Proof.
-  intros l0 n H. unfold lshift_n_trace.
-  etransitivity; [|apply gap_prefix_pollfree; apply inserts_pollfree].
-  etransitivity; [|apply inserts_work_ge; exact H].
+  intros l0 n H. unfold lshift_n_trace_old.
+  etransitivity; [|apply gap_prefix_pollfree; apply inserts_old_pollfree].
+  etransitivity; [|apply inserts_old_work_ge; exact H].
   rewrite N2Nat.id. lia.
 Qed.
 
@@ -341,28 +448,35 @@ Qed.
 
 (* date +/- n days: no bound polynomial (here: quadratic, any constant) in the
    size of n covers the gap *)
-Lemma gap_unbounded_date_lemma : forall c, exists n, quad c (N.size n) < gap (date_days_trace n).
+Lemma gap_unbounded_date_old_lemma : forall c, exists n, quad c (N.size n) < gap (date_days_trace_old n).
 Proof.
   intro c. destruct (quad_lt_pow2 c) as (d & Hd & H).
-  exists (2 ^ N.of_nat d). rewrite gap_date_days_lemma, size_pow2.
+  exists (2 ^ N.of_nat d). rewrite gap_date_days_old_lemma, size_pow2.
   eapply N.le_lt_trans; [|exact H]. apply (quad_mono c). lia.
 Qed.
 
-Lemma gap_unbounded_lshift_lemma : forall c, exists n, quad c (N.size n) < gap (lshift_n_trace 1 n).
+Lemma gap_unbounded_lshift_old_lemma : forall c, exists n, quad c (N.size n) < gap (lshift_n_trace_old 1 n).
 Proof.
   intro c. destruct (quad_lt_pow2 c) as (d & Hd & H).
   exists (2 ^ (N.of_nat d + 6)).
-  eapply N.lt_le_trans; [|apply gap_lshift_n_lemma; lia].
+  eapply N.lt_le_trans; [|apply gap_lshift_n_old_lemma; lia].
   rewrite size_pow2.
-  replace (2 ^ (N.of_nat d + 6) / 64) with (2 ^ N.of_nat d).
-  2:{ rewrite N.pow_add_r. change (2 ^ 6) with 64. rewrite N.div_mul by lia. reflexivity. }
+  assert (2 ^ (N.of_nat d + 6) / 64 = 2 ^ N.of_nat d) as Dv.
+  { rewrite N.pow_add_r. change (2 ^ 6) with 64. rewrite N.div_mul by lia. reflexivity. }
+  assert (lshift_inserts (2 ^ (N.of_nat d + 6)) = 2 ^ N.of_nat d) as Li.
+  { unfold lshift_inserts. rewrite Dv.
+    assert (64 < 2 ^ (N.of_nat d + 6)) as G.
+    { rewrite N.pow_add_r. change (2 ^ 6) with 64.
+      assert (2 ^ 1 <= 2 ^ N.of_nat d) by (apply N.pow_le_mono_r; lia). change (2 ^ 1) with 2 in *. lia. }
+    apply N.ltb_lt in G. rewrite G. reflexivity. }
+  rewrite Li.
   eapply N.le_lt_trans; [|exact H]. apply (quad_mono c). lia.
 Qed.
 
-Lemma gap_unbounded_dist_lemma : forall c, exists faces, quad c (N.size faces) < gap (dist_bop_trace faces faces).
+Lemma gap_unbounded_dist_old_lemma : forall c, exists faces, quad c (N.size faces) < gap (dist_bop_trace_old faces faces).
 Proof.
   intro c. destruct (quad_lt_pow2 c) as (d & Hd & H).
-  exists (2 ^ N.of_nat d). rewrite gap_dist_bop_lemma, size_pow2.
+  exists (2 ^ N.of_nat d). rewrite gap_dist_bop_old_lemma, size_pow2.
   eapply N.lt_le_trans.
   - eapply N.le_lt_trans; [|exact H]. apply (quad_mono c). lia.
   - assert (1 <= 2 ^ N.of_nat d) by (pose proof (N.pow_nonzero 2 (N.of_nat d)); lia). nia.
@@ -412,13 +526,4 @@ Lemma factorial_polls_of_ge : forall n, n - 1 <= factorial_polls_of n.
 Proof. intros. unfold factorial_polls_of. apply factorial_polls_ge. lia. Qed.
 
 Lemma polls_skeleton_mul : forall la lb, polls (mul_trace la lb) = lb.
-Proof.
-  intros. unfold mul_trace.
-  assert (forall n body, polls (repeat_trace n (Poll :: body)) = N.of_nat n * (1 + polls body)) as R.
-  { clear. induction n as [|n IH]; intros; cbn [repeat_trace]; [reflexivity|].
-    assert (forall a b, polls (a ++ b) = polls a + polls b) as A.
-    { clear. induction a as [|[|k] a IH]; intros; cbn [polls app]; [lia | rewrite IH; lia | apply IH]. }
-    change ((Poll :: body) ++ repeat_trace n (Poll :: body)) with (Poll :: (body ++ repeat_trace n (Poll :: body))).
-    cbn [polls]. rewrite A, IH, Nat2N.inj_succ. lia. }
-  rewrite R. cbn [polls]. rewrite N2Nat.id. lia.
-Qed.
+Proof. intros. unfold mul_trace. rewrite polls_repeat. cbn [polls]. rewrite N2Nat.id. lia. Qed.
